@@ -110,12 +110,17 @@ type Sched struct {
 	pctChange   map[uint64]bool
 	rr          int
 	dying       bool
-	onceOwner   *Task
-	onceDepth   int
-	epoch       uint64 // incremented whenever a task is released to run
-	progress    uint64 // incremented whenever a task hands back after really running, or simulated time jumps
-	LockWaits   int
-	Blocks      int
+	// sleeping: the running task is inside Task.Sleep (the fake clock is advancing). Library code that
+	// reaches a hook meanwhile runs on a goroutine the simulator does not own (a background goroutine
+	// of the library woken by a timer); it is stopped and the run is marked Foreign.
+	sleeping  bool
+	Foreign   bool
+	onceOwner *Task
+	onceDepth int
+	epoch     uint64 // incremented whenever a task is released to run
+	progress  uint64 // incremented whenever a task hands back after really running, or simulated time jumps
+	LockWaits int
+	Blocks    int
 }
 
 func NewSched(ch *Choices, policy, meanQ int) *Sched {
@@ -141,6 +146,10 @@ func (s *Sched) Spawn(fn func(t *Task)) *Task {
 func (s *Sched) stepHook(site int32) {
 	if s.dying {
 		return // tasks are being released at the end of the run (deferred library code may still execute)
+	}
+	if s.sleeping {
+		s.Foreign = true
+		runtime.Goexit()
 	}
 	s.Steps++
 	t := s.cur
@@ -178,6 +187,16 @@ func (t *Task) Emit(kind string, obj uintptr, val interface{}) {
 	t.handoff(schedMsg{kind: mEvent, ev: ev, site: -1})
 }
 
+// Sleep lets simulated time pass for the running task: every other task is parked, so the bubble's fake
+// clock jumps by d at once.
+//
+//go:norace
+func (t *Task) Sleep(d time.Duration) {
+	t.s.sleeping = true
+	time.Sleep(d)
+	t.s.sleeping = false
+}
+
 // Block parks the task until cond() holds (evaluated by the scheduler).
 //
 //go:norace
@@ -193,6 +212,10 @@ func (s *Sched) lockBlocked() {
 	if s.dying {
 		runtime.Gosched()
 		return
+	}
+	if s.sleeping {
+		s.Foreign = true
+		runtime.Goexit()
 	}
 	t := s.cur
 	if t == nil {
@@ -211,14 +234,14 @@ func (t *Task) BlockUntil(cond func() bool, wake func() uint64) {
 
 //go:norace
 func (s *Sched) lockTaken() {
-	if t := s.cur; t != nil && !s.dying {
+	if t := s.cur; t != nil && !s.dying && !s.sleeping {
 		t.locksHeld++
 	}
 }
 
 //go:norace
 func (s *Sched) lockReleased() {
-	if t := s.cur; t != nil && !s.dying && t.locksHeld > 0 {
+	if t := s.cur; t != nil && !s.dying && !s.sleeping && t.locksHeld > 0 {
 		t.locksHeld--
 	}
 }
